@@ -305,6 +305,48 @@ static void overtake_scenario(rng &r, int reactor, int iterations)
 	O().count("overtake_scenarios");
 }
 
+// Descriptor requests made before run() (or between reset() and run()) are queued; when the descriptor is closed again before
+// the loop starts, its number is free for the loop's own wake-up pipe. The queued requests must not disturb the pipe: a post()
+// from another thread has to be delivered promptly afterwards. A safety timer wakes the loop after 6 s so that a lost
+// wake-up shows as lateness instead of a stuck thread.
+static void prerun_scenario(rng &r, int reactor)
+{
+	aio::io_service srv(reactor);
+	logbook lb;
+	int pairs = r.range(1, 3);
+	std::vector<long> ids;
+	for (int i = 0; i < pairs; i++) {
+		int sp[2]; if (socketpair(AF_UNIX, SOCK_STREAM, 0, sp)) { perror("socketpair"); exit(3); }
+		aio::stream_socket s(srv); s.assign(sp[0]);
+		long id = lb.add(K_IO_CLOSE, 0); ids.push_back(id);
+		ev_handler h = { &lb, id, 0 };
+		if (r.chance(1, 2)) s.on_readable(h); else s.on_writeable(h);
+		s.close();
+		close(sp[1]);
+	}
+	std::atomic<int> posted_ran(0);
+	struct mark { std::atomic<int> *f; void operator()() const { f->store(1); } };
+	// re-arms itself: with a lost wake-up pipe neither post() nor stop() can wake the loop, only a timer can
+	struct safety { aio::io_service *s; void operator()(booster::system::error_code const &e) const { if (e) return; safety again = { s }; s->set_timer_event(ptime::now() + ptime::from_number(1.0), again); } };
+	{ safety first = { &srv }; srv.set_timer_event(ptime::now() + ptime::from_number(6.0), first); }
+	std::atomic<bool> started(false);
+	std::thread loop([&]() { started = true; srv.run(); });
+	while (!started.load()) sched_yield();
+	usleep(100000);                                   // let the loop drain its queue and go to sleep
+	double t0 = ptime::to_number(ptime::now());
+	{ mark m = { &posted_ran }; srv.post(m); }
+	while (!posted_ran.load() && ptime::to_number(ptime::now()) - t0 < 20) usleep(1000);
+	double waited = ptime::to_number(ptime::now()) - t0;
+	srv.stop(); loop.join();
+	std::string rp = "{\"scenario\":\"prerun\",\"reactor\":" + std::to_string(reactor) + ",\"sockets_closed_before_run\":" + std::to_string(pairs) + "}";
+	O().count("prerun_scenarios"); O().count("handlers_registered", pairs + 1);
+	if (!posted_ran.load()) O().viol("aio:handler-never-ran:post", "posted from another thread after descriptor requests were queued and their sockets closed before run()", rp);
+	else if (waited > 4.0) O().viol("aio:post-not-delivered-until-an-unrelated-wakeup", "a handler posted from another thread ran only after " + std::to_string(waited) + " s, when the safety timer woke the loop", rp);
+	std::vector<int> count(lb.regs.size(), 0); for (auto const &x : lb.runs) count[x.id]++;
+	for (long id : ids) if (count[id] != 1) O().viol(count[id] ? "aio:handler-ran-more-than-once:io" : "aio:handler-never-ran:io", "wait armed and socket closed before run()", rp);
+	for (auto const &x : lb.runs) if (!x.err) O().viol("aio:closed-descriptor-wait-delivered-success", "prerun", rp);
+}
+
 // The peer writes its last bytes and closes: the descriptor is readable (and hung up). The wait for readability
 // happened - it must be delivered as success and the bytes must be readable, on every back-end alike.
 static void hangup_scenario(rng &r, int reactor)
@@ -528,6 +570,7 @@ int main(int argc, char **argv)
 		for (int ri = 0; ri < 3; ri++) {
 			if (mode == "all" || mode == "loop") loop_scenario(r, reactors[ri], r.range(1, (int)a.num("producers", 6)), actions, "");
 			if (mode == "all" || mode == "hangup") hangup_scenario(r, reactors[ri]);
+			if (mode == "all" || mode == "prerun") prerun_scenario(r, reactors[ri]);
 			if (mode == "all" || mode == "rearm") for (int k = 0; k < 3; k++) rearm_scenario(r, reactors[ri]);
 			if (mode == "all" || mode == "near") near_deadline_scenario(r, reactors[ri], (int)a.num("near", 40));
 			if (mode == "all" || mode == "overtake") overtake_scenario(r, reactors[ri], (int)a.num("overtake", 150));
